@@ -89,7 +89,7 @@ def tree_hash(root):
                     if not b:
                         break
                     h.update(b)
-            out[os.path.relpath(p, root)] = (st.st_size, st.st_mtime_ns, h.hexdigest())
+            out[os.path.relpath(p, root)] = (st.st_size, st.st_mtime_ns, st.st_mode, h.hexdigest())
         for d in dn:
             out[os.path.relpath(os.path.join(dp, d), root) + "/"] = ("dir",)
     return out
@@ -408,6 +408,62 @@ def handle_workloads(rng):
     return out
 
 
+def damaged_handles(ctx, rng):
+    from harness import diskcheck
+    out = []
+    pats = [b"\x01\x00\x00\x00" * 4, b"\x00\x00\x00\x01" * 4, b"\xff" * 16, b"\x02\x00\x00\x00\x00\x00\x00\x00" * 2]
+    extra = []
+    # entries that point into the image's own header area (in front of the first data block)
+    f, _ = enc_hds.build({"ver": 1, "n": 3, "cb": 8, "bat": {0: 1, 1: 9, 2: 0}, "size": 24}, cluster_size=4096, P=4)
+    extra.append(("hds", f.peek_bytes(0, f.size())))
+    f, _ = enc_hds.build({"ver": 2, "n": 3, "cb": 1, "bat": {0: 1, 1: 2, 2: 0}, "size": 3}, cluster_size=4096, P=3)
+    b = bytearray(f.peek_bytes(0, f.size()))
+    b[64:68] = struct.pack("<I", 0)
+    b[68:72] = struct.pack("<I", 1)
+    extra.append(("hds", bytes(b)))
+    wl = handle_workloads(rng)
+    byname = {n: fn for n, fn, _ in wl}
+    cases = [(n, fn, blob, None) for n, fn, blob in wl if not n.startswith(("envelope", "vmtar-gzip"))] + [(n, byname[n], blob, "as-is") for n, blob in extra]
+    root = tempfile.mkdtemp(prefix="verif-c09d-")
+    try:
+        for name, fn, blob, how in cases:
+            variants = [blob] if how == "as-is" else []
+            if how is None:
+                for off in range(0, min(len(blob) - 16, 8192), 512):
+                    p = rng.choice(pats)
+                    o = off + rng.choice([0, 8, 64, 128])
+                    variants.append(blob[:o] + p + blob[o + len(p):])
+                variants.append(blob[:len(blob) * 3 // 5])
+            changed, evs_all = False, []
+            for k, data in enumerate(variants):
+                pth = os.path.join(root, f"evidence-{k}.bin")
+                with open(pth, "wb") as fh_:
+                    fh_.write(data)
+                before = tree_hash(root)
+                audit_on(root, phase="lib")
+                try:
+                    with harness_open(pth, "r+b") as fh:
+                        try:
+                            diskcheck.with_watchdog(lambda: fn(fh), 20)
+                        except diskcheck.Hang:
+                            pass      # (termination on damaged input is property C11's business)
+                        except Exception:  # noqa: BLE001
+                            pass
+                finally:
+                    evs = audit_off()[:20]
+                after = tree_hash(root)
+                evs_all += evs
+                fe = fs_event(before, after, "lib")
+                if fe["changed"]:
+                    evs_all.append(fe)
+                os.unlink(pth)
+            evs_all.append({"kind": "fs", "changed": [], "phase": "lib"})
+            out.append({"source": "updatable-file-damaged", "workload": name, "events": evs_all[:60]})
+    finally:
+        shutil.rmtree(root, ignore_errors=True)
+    return out
+
+
 # ------------------------------------------------------------------------------------------------ recorder 3: call-site inventory
 MUT_METHODS = {"write", "writelines", "truncate", "unlink", "rename", "rmdir", "mkdir", "touch", "chmod", "write_text", "write_bytes", "remove",
                "symlink_to", "hardlink_to", "makedirs", "removedirs", "renames", "utime", "chown", "lchmod", "link_to"}
@@ -586,6 +642,13 @@ def run(ctx):
                 ctx.violation({"source": "updatable-file", "workload": name, "fail": "workload-raised"}, {"error": err})
         finally:
             shutil.rmtree(root, ignore_errors=True)
+    # 2b'. damaged variants of the same images on handles opened for update: the reader may refuse them, get lost in them or
+    #      "repair" what it holds in memory - the bytes it was handed must stay as they are
+    dtraces = damaged_handles(ctx, rng)
+    for t in dtraces:
+        tid += 1
+        t["tid"] = tid
+        traces.append(t)
     # 2c. debug logging switched on through the environment before import (one subprocess, cwd = the evidence directory)
     import json
     import subprocess
